@@ -5119,7 +5119,14 @@ class PyCdlib:
 
             (udf_name, udf_parent) = self._udf_name_and_parent_from_path(udf_path_bytes)
 
-            num_extents_to_remove = udf_parent.remove_file_ident_desc_by_name(udf_name,
+            # The name we were given is UTF-8, while the identifiers in the
+            # directory are stored as latin-1 or UTF-16; look the identifier
+            # up so that we remove it by the name it is stored under.
+            udf_ident = udf_parent.find_file_ident_desc_by_name(udf_name)
+            if not udf_ident.is_dir():
+                raise pycdlibexception.PyCdlibInvalidInput('Cannot remove a file with rm_directory (try rm_file instead)')
+
+            num_extents_to_remove = udf_parent.remove_file_ident_desc_by_name(udf_ident.fi,
                                                                               self.logical_block_size)
             # Remove space (if necessary) in the parent File Identifier
             # Descriptor area.
